@@ -376,6 +376,23 @@ def check(pid, tier, seed):
                            variant=st.get("variant", ""), samples=2 if k < 3 else 0, known=["%s:%s" % (pid, e["key"]) for e in known])
                 ws.append(spawn(b["bin"], job, sscratch, "s%d-w%d" % (si, k), race=srace, gomaxprocs=[1, 2, 4, 16][k % 4]))
             wait_all(ws, st["budget_s"] * 3 + 600)
+            # workers that retired because a run left goroutines behind (a library with long-lived
+            # workers): continue their shard in fresh processes while the stage budget lasts
+            t_stage = time.time()
+            rounds = 0
+            while time.time() - t_stage < st["budget_s"] and rounds < 400:
+                cont = []
+                for w in ws:
+                    o = read_out(w)
+                    if o and o.get("retired") and not w.get("continued") and w["rc"] == 0 and o.get("retired_at", 0) < st["runs"]:
+                        w["continued"] = True
+                        job = dict(w["job"], first_run=o["retired_at"], budget_s=max(5.0, st["budget_s"] - (time.time() - t_stage)))
+                        cont.append(spawn(b["bin"], job, sscratch, w["tag"] + "c", race=srace))
+                if not cont:
+                    break
+                wait_all(cont, st["budget_s"] * 3 + 600)
+                ws.extend(cont)
+                rounds += 1
             stage = dict(variant=st.get("variant", ""), race_build=srace, planned_runs=st["runs"], runs=0, wall_s=0.0)
             for w in ws:
                 out = read_out(w)
@@ -391,6 +408,9 @@ def check(pid, tier, seed):
                         agg["infra"].append("worker %s died before its first run (rc=%s):\n%s" % (w["tag"], w["rc"], tail))
                         continue
                     job = dict(w["job"], only_run=cur, budget_s=0)
+                    if "from outside bubble" in tail:
+                        agg["infra"].append("simulator limitation: a goroutine that outlived an earlier simulation touched a channel of a later one (worker %s, run %s):\n%s" % (w["tag"], cur, tail[-1500:]))
+                        continue
                     raced = "DATA RACE" in tail or "VERIF-BLOCKED-FOREVER" in tail
                     reproduced, tail2, out2 = False, "", None
                     for attempt in range(3 if raced else 1):
